@@ -13,6 +13,8 @@
 #include <time.h>
 #include <unistd.h>
 static uint64_t rs; static uint64_t rnd(void){ rs += 0x9E3779B97F4A7C15ull; uint64_t z=rs; z=(z^(z>>30))*0xBF58476D1CE4E5B9ull; z=(z^(z>>27))*0x94D049BB133111EBull; return z^(z>>31); }
+// all leeways, the unbounded ones included (target + leeway saturates: the timer has a start time and no latest time; it still has to fire)
+static uint64_t leeway_pick(void){ switch(rnd()%8){ case 0: return DISPATCH_TIME_FOREVER; case 1: return (uint64_t)INT64_MAX; case 2: return 1000000000ull; case 3: case 4: return rnd()%20000000; default: return 0; } }
 static uint64_t clk(clockid_t id){ struct timespec ts; clock_gettime(id,&ts); return (uint64_t)ts.tv_sec*1000000000ull+(uint64_t)ts.tv_nsec; }
 static const clockid_t CLK[3] = { CLOCK_MONOTONIC /* uptime base 0 */, CLOCK_BOOTTIME /* monotonic base 1<<63 */, CLOCK_REALTIME /* wall */ };
 static _Atomic int viol; static char vmsg[300];
@@ -124,7 +126,7 @@ int main(int argc,char**argv){ uint64_t seed=argc>1?strtoull(argv[1],0,0):1; int
       long tot=atomic_fetch_add(&t->total,(long)n)+(long)n; atomic_fetch_add(&t->fires,1);
       long bounds = tn<st?0 : (t->interval==DISPATCH_TIME_FOREVER? 1 : (long)((tn-st)/t->interval)+1);
       if(!t->replaced && tot>bounds) fail("timer reported more firings than interval boundaries passed: idx/total/boundaries",i,tot,bounds); });
-    dispatch_source_set_timer(t->ds,dispatch_time(base,(int64_t)delay),t->interval, rnd()%2? 0 : rnd()%20000000);
+    dispatch_source_set_timer(t->ds,dispatch_time(base,(int64_t)delay),t->interval, leeway_pick());
     dispatch_activate(t->ds); }
   // churn: cancel some, replace settings of some, suspend/resume some
   usleep(50000);
@@ -133,7 +135,7 @@ int main(int argc,char**argv){ uint64_t seed=argc>1?strtoull(argv[1],0,0):1; int
     case 1: { dispatch_suspend(t->ds); // replace settings while suspended so that no firing of the old settings can race the bookkeeping
         dispatch_time_t base = t->clock==0? DISPATCH_TIME_NOW : t->clock==1? (1ull<<63) : DISPATCH_WALLTIME_NOW; uint64_t delay=300*1000000ull+rnd()%(300*1000000ull);
         dispatch_barrier_sync(q,^{}); uint64_t now=clk(CLK[t->clock]); t->new_start=now+delay; t->replaced=1; atomic_store(&t->total,0); atomic_store(&t->fires,0);
-        dispatch_source_set_timer(t->ds,dispatch_time(base,(int64_t)delay),t->interval,0); dispatch_resume(t->ds); break; }
+        dispatch_source_set_timer(t->ds,dispatch_time(base,(int64_t)delay),t->interval,leeway_pick()); dispatch_resume(t->ds); break; }
     case 2: dispatch_suspend(t->ds); usleep(1000); dispatch_resume(t->ds); break;
     default: break; } }
   // liveness: everything must have fired within horizon + generous slack
